@@ -4,6 +4,7 @@ CONSTANTS
   MaxDepth = 3
   Fuel = 80
   Alphabet = {"O", "IO", "EO", "EIO", "C", "IG", "EG", "EIG", "G", "L", "LP", "P", "INC"}
+  Shape = "any"
   Names = {"y"}
 INVARIANTS MachineSane NoUB Monitors Scans EmitCase
 CHECK_DEADLOCK FALSE
